@@ -907,9 +907,9 @@ func escapeProfile() Profile {
 
 func aliasProfile() Profile {
 	type fam struct {
-		ys, xs  []func() *Node // initial values of y and x
-		share   []func() *Node // statements over x, y
-		mutate  []func() *Node
+		ys, xs []func() *Node // initial values of y and x
+		share  []func() *Node // statements over x, y
+		mutate []func() *Node
 	}
 	call := func(recv, m string, args ...*Node) *Node { return ExprS(Call(Attr(Name(recv), m), args...)) }
 	lists := fam{
@@ -953,7 +953,9 @@ func aliasProfile() Profile {
 			func() *Node { return Assign("=", Name("x"), Call(Name("dict"), Name("y"))) },
 			func() *Node { return Assign("=", Name("x"), Bin("|", DictE(), Name("y"))) },
 			func() *Node { return Assign("=", Name("x"), Bin("|", Name("y"), DictE())) },
-			func() *Node { return Assign("=", Name("x"), DictComp(Name("k"), Index(Name("y"), Name("k")), ForC(Name("k"), Name("y")))) },
+			func() *Node {
+				return Assign("=", Name("x"), DictComp(Name("k"), Index(Name("y"), Name("k")), ForC(Name("k"), Name("y"))))
+			},
 		},
 		mutate: []func() *Node{
 			func() *Node { return Assign("=", Index(Name("x"), Num(1)), Num(9)) },
